@@ -361,7 +361,10 @@ func (q *checker) tcheckAssign(n *a.Assign) error {
 		return err
 	}
 	for l := lhs; l != nil; l = l.LHS().AsExpr() {
-		if l.Operator() != t.IDOpenBracket {
+		if l.GlobalIdent() {
+			return fmt.Errorf("check: assignment %q: assignee %q is a constant",
+				n.Operator().Str(q.tm), l.Str(q.tm))
+		} else if l.Operator() != t.IDOpenBracket {
 			// No-op.
 		} else if lTyp := l.LHS().MType(); lTyp.IsRecursivelyReadOnly() {
 			return fmt.Errorf("check: assignment %q: assignee fragment %q, of type %q, has read-only type",
